@@ -8,14 +8,28 @@ open GmqttVerif.Deliver
 
 /-! ### poll loops -/
 
+/-- the record of a connection is updated in place: name, client id, protocol version and window size stay -/
+structure CliSame (c c' : Cli) : Prop where
+  conn : c'.conn = c.conn
+  cid : c'.cid = c.cid
+  v : c'.v = c.v
+  maxInflight : c'.maxInflight = c.maxInflight
+  cliAliasMax : c'.cliAliasMax = c.cliAliasMax
+
+theorem CliSame.refl (c : Cli) : CliSame c c := ⟨rfl, rfl, rfl, rfl, rfl⟩
+theorem CliSame.trans {a b c : Cli} (h1 : CliSame a b) (h2 : CliSame b c) : CliSame a c :=
+  ⟨h2.conn.trans h1.conn, h2.cid.trans h1.cid, h2.v.trans h1.v, h2.maxInflight.trans h1.maxInflight,
+   h2.cliAliasMax.trans h1.cliAliasMax⟩
+
 /-- the primitive steps of a connection's poll goroutine; `Qrel` relates the session queue before and after a read -/
 inductive PollStep (Qrel : Queue.Q → Queue.Q → Prop) (conn : String) : B → B → Prop
   | emit (b : B) (p : Pkt) : PollStep Qrel conn b (b.emit conn true p)
   | setQueue (b : B) (c : Cli) (s : Sess) (q' : Queue.Q) :
       b.cli? conn = some c → b.sess? c.cid = some s → Qrel s.queue q' →
       PollStep Qrel conn b (b.setSess { s with queue := q' })
-  | setUsed (b : B) (c : Cli) (u : List Nat) :
-      b.cli? conn = some c → PollStep Qrel conn b (b.setCli { c with used := u })
+  | setCli (b : B) (c c' : Cli) :
+      b.cli? conn = some c → CliSame c c' → PollStep Qrel conn b (b.setCli c')
+  | setMsgs (b : B) (ms : List Msg) : PollStep Qrel conn b { b with msgs := ms }
 
 inductive PollRun (Qrel : Queue.Q → Queue.Q → Prop) (conn : String) : B → B → Prop
   | refl (b : B) : PollRun Qrel conn b b
@@ -35,7 +49,8 @@ theorem PollStep.outs {Qrel : Queue.Q → Queue.Q → Prop} {conn : String} {a b
   cases h with
   | emit p => exact outs_emit _ _ _ _ ⟨rfl, rfl⟩
   | setQueue => exact Outs.of_eq rfl
-  | setUsed => exact Outs.of_eq rfl
+  | setCli => exact Outs.of_eq rfl
+  | setMsgs => exact Outs.of_eq rfl
 
 theorem PollRun.outs {Qrel : Queue.Q → Queue.Q → Prop} {conn : String} {a b : B} (h : PollRun Qrel conn a b) :
     Outs (fun o => o.conn = conn ∧ o.poll = true) a b := by
@@ -48,9 +63,10 @@ theorem PollStep.wf {Qrel : Queue.Q → Queue.Q → Prop} {conn : String} {a b :
   cases h with
   | emit p => exact hw.emit _ _ _
   | setQueue => exact hw.setSess _
-  | setUsed c u hc =>
+  | setCli c c' hc hsame =>
     have hconn := (cli?_some hc).2
-    exact hw.setCli (c := { c with used := u }) (c0 := c) (by simpa [hconn] using hc) rfl
+    exact hw.setCli (c := c') (c0 := c) (by rw [hsame.conn, hconn]; exact hc) hsame.cid.symm
+  | setMsgs ms => exact ⟨hw.cids, hw.conns, hw.online, hw.offl, hw.subsess⟩
 
 theorem PollRun.wf {Qrel : Queue.Q → Queue.Q → Prop} {conn : String} {a b : B} (h : PollRun Qrel conn a b)
     (hw : WF a) : WF b := by
@@ -98,7 +114,32 @@ theorem PollStep.sess {Qrel : Queue.Q → Queue.Q → Prop} (hrefl : ∀ q, Qrel
       rw [← hss]
       exact ⟨rfl, rfl, rfl, hq⟩
     · exact ⟨s, by simp [hcid, hs], rfl, rfl, rfl, hrefl _⟩
-  | setUsed c u hc => exact ⟨s, hs, rfl, rfl, rfl, hrefl _⟩
+  | setCli c c' hc _ => exact ⟨s, hs, rfl, rfl, rfl, hrefl _⟩
+  | setMsgs ms => exact ⟨s, hs, rfl, rfl, rfl, hrefl _⟩
+
+/-- the connection's own record stays the same connection -/
+theorem PollStep.cli {Qrel : Queue.Q → Queue.Q → Prop} {conn : String} {a b : B}
+    (h : PollStep Qrel conn a b) (c : Cli) (hc : a.cli? conn = some c) :
+    ∃ c', b.cli? conn = some c' ∧ CliSame c c' := by
+  cases h with
+  | emit p => exact ⟨c, hc, .refl c⟩
+  | setQueue => exact ⟨c, hc, .refl c⟩
+  | setCli c0 c' hc0 hsame =>
+    rw [hc] at hc0
+    cases hc0
+    refine ⟨c', ?_, hsame⟩
+    rw [cli?_setCli, if_pos (by rw [hsame.conn]; exact (cli?_some hc).2)]
+  | setMsgs ms => exact ⟨c, hc, .refl c⟩
+
+theorem PollRun.cli {Qrel : Queue.Q → Queue.Q → Prop} {conn : String} {a b : B}
+    (h : PollRun Qrel conn a b) (c : Cli) (hc : a.cli? conn = some c) :
+    ∃ c', b.cli? conn = some c' ∧ CliSame c c' := by
+  induction h generalizing c with
+  | refl => exact ⟨c, hc, .refl c⟩
+  | step hst _ ih =>
+    obtain ⟨c1, hc1, r1⟩ := hst.cli c hc
+    obtain ⟨c2, hc2, r2⟩ := ih c1 hc1
+    exact ⟨c2, hc2, r1.trans r2⟩
 
 theorem PollRun.sess {Qrel : Queue.Q → Queue.Q → Prop} (hrefl : ∀ q, Qrel q q)
     (htrans : ∀ q1 q2 q3, Qrel q1 q2 → Qrel q2 q3 → Qrel q1 q3) {conn : String} {a b : B}
@@ -120,7 +161,8 @@ theorem PollRun.mono {Q1 Q2 : Queue.Q → Queue.Q → Prop} (hq : ∀ q q', Q1 q
     cases hs with
     | emit p => exact .emit _ p
     | setQueue c s q' hc hs hr => exact .setQueue _ c s q' hc hs (hq _ _ hr)
-    | setUsed c u hc => exact .setUsed _ c u hc
+    | setCli c c' hc hsame => exact .setCli _ c c' hc hsame
+    | setMsgs ms => exact .setMsgs _ ms
 
 /-- the identity of the queue's elements: message, kind, packet id, QoS — in order -/
 def qkeys (q : Queue.Q) : List (Nat × Bool × Nat × Nat) := q.items.map (fun e => (e.tag, e.pub, e.id, e.qos))
@@ -143,25 +185,70 @@ theorem readInflight_keys (q : Queue.Q) (now n : Nat) : KeysEq q (q.readInflight
 theorem init_keys (q : Queue.Q) (l : Nat) : qkeys (q.init false l) = qkeys q := by
   simp [qkeys, Queue.Q.init, Queue.Q.items]
 
+/-- what `emitPub` changes in a PUBLISH: topic name / alias / size; everything else is `p` -/
+def Pkt.core : Pkt → Pkt
+  | .publish _ qos retain dup id tag plen sids exp _ _ => .publish "" qos retain dup id tag plen sids exp none 0
+  | p => p
+
+/-- `emitPub`: possibly an update of the connection's outbound alias table, then one packet on the P stream that
+    is `p` up to topic name / alias / size -/
+theorem emitPub_spec (b : B) (conn : String) (p : Pkt) :
+    ∃ b' p', b.emitPub conn p = b'.emit conn true p' ∧ p'.core = p.core ∧
+      (b' = b ∨ ∃ c q, b.cli? conn = some c ∧ b' = b.setCli { c with aliasOut := q }) := by
+  unfold B.emitPub
+  split
+  · next topic qos retain dup id tag plen sids exp al size c hc =>
+    have hc' : b.cli? conn = some c := hc
+    obtain ⟨_, rfl⟩ := cli?_some hc'
+    split
+    · split
+      · next q a exist _ =>
+        simp only
+        split
+        · exact ⟨b.setCli { c with aliasOut := q }, _, rfl, rfl, .inr ⟨c, q, hc', rfl⟩⟩
+        · split
+          · exact ⟨b.setCli { c with aliasOut := q }, _, rfl, rfl, .inr ⟨c, q, hc', rfl⟩⟩
+          · exact ⟨b.setCli { c with aliasOut := q }, _, rfl, rfl, .inr ⟨c, q, hc', rfl⟩⟩
+      · exact ⟨b, _, rfl, rfl, .inl rfl⟩
+    · exact ⟨b, _, rfl, rfl, .inl rfl⟩
+  · exact ⟨b, _, rfl, rfl, .inl rfl⟩
+
+theorem emitPub_run (Qrel : Queue.Q → Queue.Q → Prop) (b : B) (conn : String) (p : Pkt) :
+    PollRun Qrel conn b (b.emitPub conn p) := by
+  obtain ⟨b', p', he, _, hb'⟩ := emitPub_spec b conn p
+  rw [he]
+  rcases hb' with rfl | ⟨c, q, hc, rfl⟩
+  · exact .single (.emit _ _)
+  · exact .step (.setCli b c { c with aliasOut := q } hc ⟨rfl, rfl, rfl, rfl, rfl⟩) (.single (.emit _ _))
+
+theorem emitPub_sessions (b : B) (conn : String) (p : Pkt) : (b.emitPub conn p).sessions = b.sessions := by
+  obtain ⟨b', p', he, _, hb'⟩ := emitPub_spec b conn p
+  rw [he]
+  rcases hb' with rfl | ⟨c, q, hc, rfl⟩ <;> rfl
+
+theorem foldl_emitPub_sessions (conn : String) (f : Queue.Elem → Pkt) (out : List Queue.Elem) (b : B) :
+    (out.foldl (fun bb (e : Queue.Elem) => bb.emitPub conn (f e)) b).sessions = b.sessions := by
+  induction out generalizing b with
+  | nil => rfl
+  | cons e es ih => simp only [List.foldl_cons]; rw [ih, emitPub_sessions]
+
 /-- the emits of one `ReadInflight` batch -/
 theorem replay_fold (Qrel : Queue.Q → Queue.Q → Prop) (conn : String) (f g : Queue.Elem → Pkt) (els : List Queue.Elem)
     (acc : B × List Nat) :
     let r := els.foldl (fun (acc : B × List Nat) (e : Queue.Elem) =>
-      if e.pub then (acc.1.emit conn true (f e), acc.2 ++ [e.id]) else (acc.1.emit conn true (g e), acc.2 ++ [e.id])) acc
-    (∃ o, r.1 = { acc.1 with out := o }) ∧ PollRun Qrel conn acc.1 r.1 := by
+      if e.pub then (acc.1.emitPub conn (f e), acc.2 ++ [e.id]) else (acc.1.emit conn true (g e), acc.2 ++ [e.id])) acc
+    PollRun Qrel conn acc.1 r.1 := by
   induction els generalizing acc with
-  | nil => exact ⟨⟨acc.1.out, rfl⟩, .refl _⟩
+  | nil => exact .refl _
   | cons e es ih =>
     simp only [List.foldl_cons]
     cases hp : e.pub
     case true =>
       simp only [if_true]
-      obtain ⟨⟨o, ho⟩, hr⟩ := ih (acc.1.emit conn true (f e), acc.2 ++ [e.id])
-      exact ⟨⟨o, by rw [ho]; rfl⟩, .step (.emit _ _) hr⟩
+      exact (emitPub_run Qrel acc.1 conn (f e)).trans (ih (acc.1.emitPub conn (f e), acc.2 ++ [e.id]))
     case false =>
       simp only [Bool.false_eq_true, if_false]
-      obtain ⟨⟨o, ho⟩, hr⟩ := ih (acc.1.emit conn true (g e), acc.2 ++ [e.id])
-      exact ⟨⟨o, by rw [ho]; rfl⟩, .step (.emit _ _) hr⟩
+      exact .step (.emit _ _) (ih (acc.1.emit conn true (g e), acc.2 ++ [e.id]))
 
 theorem replay_run (fuel : Nat) (b : B) (conn : String) : PollRun KeysEq conn b (b.replay conn fuel) := by
   induction fuel generalizing b with
@@ -190,20 +277,19 @@ theorem replay_run (fuel : Nat) (b : B) (conn : String) : PollRun KeysEq conn b 
           simp only at hf
           generalize List.foldl _ _ els = r at hf ⊢
           obtain ⟨b1, used⟩ := r
-          obtain ⟨⟨o, ho⟩, hr⟩ := hf
-          simp only at ho hr ⊢
-          have hc1 : b1.cli? conn = some c := by rw [ho]; exact hc
-          exact h0.trans (hr.trans (.step (.setUsed b1 c used hc1) (ih _)))
+          simp only at hf ⊢
+          obtain ⟨c1, hc1, hsame⟩ := hf.cli c hc
+          rw [hc1]
+          simp only
+          exact h0.trans (hf.trans (.step (.setCli b1 c1 { c1 with used := used } hc1 ⟨rfl, rfl, rfl, rfl, rfl⟩) (ih _)))
 
 theorem pump_fold (Qrel : Queue.Q → Queue.Q → Prop) (conn : String) (f : Queue.Elem → Pkt) (out : List Queue.Elem) (b : B) :
-    let r := out.foldl (fun bb (e : Queue.Elem) => bb.emit conn true (f e)) b
-    (∃ o, r = { b with out := o }) ∧ PollRun Qrel conn b r := by
+    PollRun Qrel conn b (out.foldl (fun bb (e : Queue.Elem) => bb.emitPub conn (f e)) b) := by
   induction out generalizing b with
-  | nil => exact ⟨⟨b.out, rfl⟩, .refl _⟩
+  | nil => exact .refl _
   | cons e es ih =>
     simp only [List.foldl_cons]
-    obtain ⟨⟨o, ho⟩, hr⟩ := ih (b.emit conn true (f e))
-    exact ⟨⟨o, by rw [ho]; rfl⟩, .step (.emit _ _) hr⟩
+    exact (emitPub_run Qrel b conn (f e)).trans (ih _)
 
 theorem pump_run (fuel : Nat) (b : B) (conn : String) : PollRun (fun _ _ => True) conn b (b.pump conn fuel) := by
   induction fuel generalizing b with
@@ -221,12 +307,21 @@ theorem pump_run (fuel : Nat) (b : B) (conn : String) : PollRun (fun _ _ => True
         · extract_lets n ids
           split
           · next q' out evs heq =>
-            obtain ⟨⟨o, ho⟩, hr⟩ := pump_fold (fun _ _ => True) conn (fun e => b.pubPkt c e b.now) out b
-            dsimp only
-            refine hr.trans ?_
-            rw [ho]
-            refine .step (.setQueue _ c s q' hc hs trivial) (.step (.setUsed _ c _ ?_) (ih _))
-            exact hc
+            have hr := pump_fold (fun _ _ => True) conn (fun e => b.pubPkt c e (b.ats.getD e.tag b.now)) out b
+            generalize hb1 : List.foldl (fun bb (e : Queue.Elem) => bb.emitPub conn (b.pubPkt c e (b.ats.getD e.tag b.now))) b out = b1 at hr
+            have hss : b1.sessions = b.sessions := by rw [← hb1]; exact foldl_emitPub_sessions _ _ _ _
+            extract_lets b1a b1' usedIds c1 b2
+            obtain ⟨c1', hc1, hsame⟩ := hr.cli c hc
+            have hr' : PollRun (fun _ _ => True) conn b b1' := hr.trans (.single (.setMsgs b1 _))
+            have hc1' : b1'.cli? conn = some c1' := hc1
+            have hcc : c1 = c1' := by simp only [c1, hc1']
+            have hs1' : b1'.sess? c1'.cid = some s := by
+              rw [hsame.cid, ← hs]; unfold B.sess?
+              show List.find? _ b1.sessions = _
+              rw [hss]
+            refine hr'.trans (.step (.setQueue b1' c1' s q' hc1' hs1' trivial) (.step (.setCli _ c1' _ hc1' ?_) (ih _)))
+            rw [hcc]
+            exact ⟨rfl, rfl, rfl, rfl, rfl⟩
           · exact .refl _
 
 /-- `pumpAll` as a fold over connection names taken from `b.clis` -/
@@ -282,14 +377,14 @@ def willStep (b : B) (c : Cli) (s : Sess) (store : Bool) : B :=
 theorem unregister_eq (b : B) (conn : String) (force : Bool) (c : Cli) (hc : b.cli? conn = some c) :
     b.unregister conn force =
       match b.sess? c.cid with
-      | none => (b.dropCli conn).terminate c.cid
+      | none => (b.dropCli conn).terminateS c.cid
       | some s0 =>
         let s := unregSess c s0 force
         let store := !force && s.expiry != 0
         let s := { s with queue := s.queue.close }
         let b2 := willStep ((b.dropCli conn).setSess s) c s store
         if store then { b2 with offline := (c.cid, b2.now + s.expiry * 1000) :: b2.offline.filter (·.1 != c.cid) }
-        else b2.terminate c.cid := by
+        else b2.terminateS c.cid := by
   unfold B.unregister
   simp only [hc]
   rfl
@@ -317,11 +412,11 @@ theorem unregister_out (b : B) (conn : String) (force : Bool) : (b.unregister co
   | some c =>
     rw [unregister_eq b conn force c hc]
     split
-    · rfl
+    · exact terminateS_out _ _
     · simp only
       split
       · exact (grow_willStep _ _ _ _).out
-      · exact (grow_willStep _ _ _ _).out
+      · exact (terminateS_out _ _).trans (grow_willStep _ _ _ _).out
 
 theorem filter_conn_of_none (b : B) (conn : String) (hc : b.cli? conn = none) :
     b.clis.filter (·.conn != conn) = b.clis := by
@@ -340,7 +435,7 @@ theorem unregister_frame (b : B) (conn : String) (force : Bool) :
   | some c =>
     rw [unregister_eq b conn force c hc]
     split
-    · exact ⟨rfl, rfl, rfl⟩
+    · exact ⟨terminateS_cfg _ _, terminateS_now _ _, terminateS_clis _ _⟩
     · simp only
       have g := grow_willStep ((b.dropCli conn).setSess
         { unregSess c ‹Sess› force with queue := (unregSess c ‹Sess› force).queue.close }) c
@@ -348,7 +443,7 @@ theorem unregister_frame (b : B) (conn : String) (force : Bool) :
         (!force && (unregSess c ‹Sess› force).expiry != 0)
       split
       · exact ⟨g.cfg, g.now, g.clis⟩
-      · exact ⟨g.cfg, g.now, g.clis⟩
+      · exact ⟨(terminateS_cfg _ _).trans g.cfg, (terminateS_now _ _).trans g.now, (terminateS_clis _ _).trans g.clis⟩
 
 theorem WF.unregister {b : B} (h : WF b) (conn : String) (force : Bool) : WF (b.unregister conn force) := by
   cases hc : b.cli? conn with
@@ -358,7 +453,7 @@ theorem WF.unregister {b : B} (h : WF b) (conn : String) (force : Bool) : WF (b.
     have h1 := h.dropCli conn
     rw [unregister_eq b conn force c hc]
     split
-    · exact h1.terminate _ hno
+    · exact h1.terminateS _ hno
     · simp only
       have g := grow_willStep ((b.dropCli conn).setSess
         { unregSess c ‹Sess› force with queue := (unregSess c ‹Sess› force).queue.close }) c
@@ -372,7 +467,7 @@ theorem WF.unregister {b : B} (h : WF b) (conn : String) (force : Bool) : WF (b.
         rw [g.clis]; exact hno
       split
       · exact h2.setOffline _ _ hno2
-      · exact h2.terminate _ hno2
+      · exact h2.terminateS _ hno2
 
 def isConnack : Pkt → Bool
   | .connack .. => true
